@@ -4,7 +4,7 @@
      h <max> <qsize> <fixed> <n> <spec_0> .. <spec_{n-1}> | <decision> <obs> <state> <decision> <obs> <state> ...
    spec: d:<pred> / s:<pred> (direct call made with Recv / Send) | p<on>:<pred>:<field> (pipelined on call <on>); pred = - or the call
    issued just before by the same caller.
-   decision: I<c> issue, A<c> ack, R<c>o|e implementation returns ok/error, T<p>o|e target of a
+   decision: I<c> issue, K<p> the (slow) target of delivered queued call p acknowledges delivery, A<c> ack, R<c>o|e implementation returns ok/error, T<p>o|e target of a
    delivered pipelined call returns, X<c> cancel the caller's context, Z Shutdown.
    obs:  [e1,e2,..]  ordered events seen by the instrumented implementations until quiescence:
          b<c> (m.Impl invoked), v<p>:r<c> / v<p>:f<c> (pipelined p delivered to result of c /
@@ -106,6 +106,8 @@ let explore p n (starts : (config * string list) list) (sobs : string) : config 
   List.iter (fun (c, rem) -> go c rem) starts;
   !out
 
+let is_slow s = match String.split_on_char ':' s with _ :: _ :: _ :: "slow" :: _ -> true | _ -> false
+
 let parse_spec s =
   match String.split_on_char ':' s with
   | k :: pr :: _ ->
@@ -123,6 +125,7 @@ let parse_decision tok =
   | 'R' -> let l = String.length body in `T (TRet (num (String.sub body 0 (l - 1)), body.[l - 1] = 'e'))
   | 'T' -> let l = String.length body in `T (TTargetRet (num (String.sub body 0 (l - 1)), body.[l - 1] = 'e'))
   | 'X' -> `T (TCancel (num body))
+  | 'K' -> `Ack (num body)
   | 'Z' -> `T TShutdown
   | _ -> failwith "decision"
 
@@ -158,7 +161,8 @@ let run_case line =
     let items = match drop n rest with "|" :: r -> r | _ -> failwith "sep" in
     let get x = let i = n2i x in if i < n then specs.(i) else (Direct, None) in
     let p = { p_max = i2n (int_of_string mx); p_qsize = i2n (int_of_string qs);
-              p_kind = (fun x -> fst (get x)); p_pred = (fun x -> snd (get x)); p_fixed = (fx = "1") } in
+              p_kind = (fun x -> fst (get x)); p_pred = (fun x -> snd (get x)); p_fixed = (fx = "1");
+              p_slow = (fun x -> let i = n2i x in i < n && is_slow (List.nth rest i)) } in
     let cfgs = ref [init p] in
     let idx = ref 0 in
     let result = ref None in
@@ -169,6 +173,7 @@ let run_case line =
         incr idx;
         let tids = match parse_decision d with
           | `Issue x -> (match fst (get x) with Direct -> [TStart x] | Pipe _ -> [TPipe x])
+          | `Ack x -> (match !cfgs with c :: _ -> [TDrainAck (proot c x)] | [] -> [])
           | `T t -> [t] in
         let obs = parse_obs o in
         let starts = List.concat_map (fun c ->
